@@ -69,8 +69,8 @@ class Empty(Expression):
             return True
         return isinstance(other, (list, dict, str)) and not other
 
-    def __str__(self) -> str:  # pragma: no cover
-        return ""
+    def __str__(self) -> str:
+        return "empty"
 
     def evaluate(self, _: RenderContext) -> Empty:
         return self
@@ -89,8 +89,8 @@ class Blank(Expression):
             return True
         return isinstance(other, Blank)
 
-    def __str__(self) -> str:  # pragma: no cover
-        return ""
+    def __str__(self) -> str:
+        return "blank"
 
     def evaluate(self, _: RenderContext) -> Blank:
         return self
@@ -175,6 +175,12 @@ class StringLiteral(Literal[str]):
 
     def __init__(self, token: Token, value: str):
         super().__init__(token, value)
+
+    def __str__(self) -> str:
+        # Liquid string literals have no escape sequences. Use whichever quote
+        # does not appear in the value.
+        quote = '"' if "'" in self.value else "'"
+        return f"{quote}{self.value}{quote}"
 
     def __eq__(self, other: object) -> bool:
         return isinstance(other, StringLiteral) and self.value == other.value
